@@ -561,6 +561,26 @@ impl VisitMut for Rw {
                 return;
             }
         }
+        // R39: `X.iter().map(F).collect::<Result<Vec<_>, _>>()` -> `map_collect_result(&X, F)` (one shim with the semantics of the chain: F applied to the
+        //      elements in order, the first Err returned, otherwise all Ok values in order)
+        if let Expr::MethodCall(mc) = e {
+            if mc.method == "collect" && mc.turbofish.as_ref().map(|t| t.to_token_stream().to_string().replace(' ', "")).as_deref() == Some("::<Result<Vec<_>,_>>") {
+                if let Expr::MethodCall(m2) = &*mc.receiver {
+                    if m2.method == "map" && m2.args.len() == 1 {
+                        if let Expr::MethodCall(m3) = &*m2.receiver {
+                            if m3.method == "iter" && m3.args.is_empty() {
+                                let x = (*m3.receiver).clone(); let f = m2.args[0].clone();
+                                self.bump("R39");
+                                let mut ne: Expr = parse_quote!(map_collect_result(&#x, #f));
+                                if let Expr::Call(call) = &mut ne { for a in call.args.iter_mut() { if matches!(a, Expr::Closure(_)) { self.closure_label = Some("map".to_string()); } self.visit_expr_mut(a); self.closure_label = None; } }
+                                *e = ne;
+                                return;
+                            }
+                        }
+                    }
+                }
+            }
+        }
         // R33: `X.split(C).map(F).collect::<Option<Vec<_>>>()` -> `split_map_collect_opt(&X, C, F)` (one shim with the semantics of the chain:
         //      F applied to the pieces in order, None as soon as one piece gives None)
         if let Expr::MethodCall(mc) = e {
